@@ -725,7 +725,7 @@ def r165(prog, chk, consumed: Set[str]):
 _MUT = {"append", "extend", "insert", "remove", "pop", "clear", "sort", "reverse", "update", "add", "discard", "setdefault", "popitem"}
 
 
-def r167(prog, chk):
+def r167(prog, chk, rule="R16.7"):
     """What getAttrWithFallback returns is the info object's own value (or the shared
     module-level default): it is never modified in place.  Otherwise an explicit
     value stops winning - the font's own list is altered (and the next compile reads
@@ -747,7 +747,7 @@ def r167(prog, chk):
             par = ix.parent(c)
             bad = isinstance(par, ast.Attribute) and par.attr in _MUT and isinstance(ix.parent(par), ast.Call)
             n += 1
-            chk.ob("R16.7", f"{fi.short}|{A.keytext(fi.node, c)}|result not mutated", not bad, where(fi, c), detail="value used read-only or copied", nontrivial=False,
+            chk.ob(rule, f"{fi.short}|{A.keytext(fi.node, c)}|result not mutated", not bad, where(fi, c), detail="value used read-only or copied", nontrivial=False,
                    message=f"{fi.short} mutates the object returned by getAttrWithFallback in place (`{T(ix.parent(par), 60) if bad else ''}`)")
         for name, sts in direct.items():
             for node in A.body_nodes(fi.node):
@@ -774,10 +774,10 @@ def r167(prog, chk):
                 hit = [d for d in defs if d.binder in sts]
                 if hit:
                     n += 1
-                    chk.ob("R16.7", f"{fi.short}|{A.keytext(fi.node, node)}", False, where(fi, node),
+                    chk.ob(rule, f"{fi.short}|{A.keytext(fi.node, node)}", False, where(fi, node),
                            message=f"{fi.short}: `{T(node, 60)}` modifies in place ({what}) the value getAttrWithFallback returned, i.e. the font info's own "
                                    f"attribute or the shared default: explicit values are altered for this and every later compile")
-    chk.minimum("R16.7", 100)
+    chk.minimum(rule, 100)
 
 
 # ----------------------------------------------------------------------------- R16.8
